@@ -6,9 +6,10 @@
                                            which the library's work list hands out pending items (any function);
       [reachable_from U rootreqs n]        project version [n] is the root or is required by a reachable one;
       [unresolvable ...]                   some reachable project version cannot be resolved (no such tag, ...);
-      [mvs_solution R l]                   [l] is strictly sorted by path (every path once) and contains (p, v)
-                                           exactly when (p, v) is reachable and v is the highest version of p
-                                           that is reachable;
+      [mvs_solution R l]                   [l] is strictly sorted by path (every path once), every member is
+                                           reachable, and every reachable (p, v) is covered by the member for p
+                                           at a version >= v; mvs_solution_highest: (p, v) is a member exactly
+                                           when it is reachable and v is the highest reachable version of p;
       [u_fuel U rootreqs]                  number of nodes of the graph + 1: an explicit sufficient fuel, so the
                                            OutOfFuel outcome (a hang) is excluded, not assumed away.
     Module identity is the path including its "@vN" suffix, so several majors of one project are distinct paths. *)
@@ -40,6 +41,13 @@ Theorem mvs_solution_unique :
   forall (R : node -> Prop) (l1 l2 : list node), mvs_solution R l1 -> mvs_solution R l2 -> l1 = l2.
 Proof. exact Proofs_C10.mvs_solution_unique. Qed.
 Print Assumptions mvs_solution_unique.
+
+(** the member for a path is the highest version demanded by a reachable requirement *)
+Theorem mvs_solution_highest :
+  forall (R : node -> Prop) (l : list node), mvs_solution R l ->
+    forall p v, In (p, v) l <-> (R (p, v) /\ v <> VNone /\ forall v', R (p, v') -> vle v' v = true).
+Proof. exact Proofs_C10.mvs_solution_highest. Qed.
+Print Assumptions mvs_solution_highest.
 
 (** the answer does not depend on the processing order, on the fuel, on the names, the order or the
     multiplicity of the root requirements *)
